@@ -18,6 +18,7 @@ from . import nlp
 from .spec import Spec, E, Con
 from .oracle import Oracle, getter
 from .catalog import NONUNIFORM
+from .backend import MODEL
 
 
 def poly_at(coeff, tau):
@@ -53,7 +54,7 @@ def refine_check(spec, exprs, refines, inst, poly=True):
     nx = sum(spec.states)
     for k in range(N):
         # the statement is about grids with T > 0 (strictly increasing): interval lengths are non-zero
-        c.assume(ca.tz((ts[k + 1] - ts[k]).e[0]) != 0)
+        nlp.assume_nonzero(ts[k + 1] - ts[k])
     # ---- the stored per-step polynomials ---------------------------------------------------
     if poly:
         for k in range(N):
@@ -125,6 +126,8 @@ def refine_check(spec, exprs, refines, inst, poly=True):
             # every r-th entry is the unrefined integrator sample (final entry: on the feasible manifold)
             idx = list(range(0, npts - 1, r))
             nlp.prove_equal(name + ":every-rth-entry-is-the-integrator-sample", res[:, idx], ca.MX(plain)[:, :len(idx)])
+            if not MODEL:
+                continue            # the substitution lemma below is an engine-side argument (z3 terms)
             # final entry: rewriting the final node state by the propagated end state of the last step (what the
             # last gap / continuity row equates it to) turns the integrator sample into the refined entry
             import z3
@@ -178,8 +181,8 @@ def sampler_check(spec, exprs, inst):
 
 def tasks(tier, prop="C08"):
     out = []
-    exprs = lambda: [E("s1", 1, ("x", "u", "t", "p", "pc")), E("s2", 2, ("x", "t"))]
-    P = {"": [1], "control": [1]}
+    exprs = lambda: [E("s1", 1, ("x", "u", "t", "p", "pc", "pcp", "v", "vc", "vcp")), E("s2", 2, ("x", "t"))]
+    P = {"": [1], "control": [1], "control+": [1]}
     grids_all = [("uniform", dict(kind="uniform"), ("unknown",))] + list(NONUNIFORM)
     for meth, intg in (("MS", "rk"), ("MS", "expl_euler"), ("SS", "rk"), ("DC", None)):
         for (N, M) in ((2, 1), (2, 2), (3, 3)) if tier == "thorough" else ((2, 2),):
@@ -188,19 +191,21 @@ def tasks(tier, prop="C08"):
                     continue
                 label = "%s/%s%s-N%d-M%d-%s-refine" % (prop, meth, "-" + intg if intg else "", N, M, gname)
                 def fn(meth=meth, intg=intg, N=N, M=M, g=g, Tk=Tk, label=label):
-                    spec = Spec(method=meth, intg=intg or "rk", N=N, M=M, degree=2, grid=dict(g), T=Tk, t0=("unknown",), params=P,
+                    spec = Spec(method=meth, intg=intg or "rk", N=N, M=M, degree=2, grid=dict(g), T=Tk, t0=("unknown",), params=P, variables=P,
                                 ode=E("f", None, ("x", "u", "t", "p", "pc")), label=label)
                     refine_check(spec, exprs(), (2, 3), label, poly=(prop == "C08"))
-                out.append(Task(label, fn, kind="bounded", bound=dict(method=meth, intg=intg, N=N, M=M, grid=g, T=list(Tk), refine=[2, 3])))
+                out.append(Task(label, fn, kind="bounded", bound=dict(method=meth, intg=intg, N=N, M=M, grid=g, T=list(Tk), refine=[2, 3]),
+                                replay=dict(harness="task_probe", module="contracts.c08", task=label, tier=tier, tasks_kw=dict(prop=prop))))
     if prop == "C08":
         # Gauss-Legendre collocation: numeric horizon (so that the step length cancels in normal form) and tolerance
         for degree in (2, 3) if tier != "thorough" else (1, 2, 3, 4):
             label = "C08/DC-legendre-d%d-N2-M2-refine" % degree
             def fn(degree=degree, label=label):
                 spec = Spec(method="DC", N=2, M=2, degree=degree, scheme="legendre", grid=dict(kind="uniform"), T=("fixed", 1.5), t0=("fixed", 0.25),
-                            params=P, ode=E("f", None, ("x", "u", "t", "p", "pc")), label=label)
+                            params=P, variables=P, ode=E("f", None, ("x", "u", "t", "p", "pc")), label=label)
                 refine_check(spec, exprs(), (2,), label)
-            out.append(Task(label, fn, kind="bounded", bound=dict(method="DC", scheme="legendre", degree=degree, N=2, M=2, T=1.5, t0=0.25, refine=[2], tolerance=1e-9)))
+            out.append(Task(label, fn, kind="bounded", bound=dict(method="DC", scheme="legendre", degree=degree, N=2, M=2, T=1.5, t0=0.25, refine=[2], tolerance=1e-9),
+                            replay=dict(harness="task_probe", module="contracts.c08", task=label, tier=tier)))
         for meth, intg in (("MS", "rk"), ("DC", None), ("SS", "expl_euler")):
             for gname, g, Tk in grids_all:
                 if tier != "thorough" and gname not in ("uniform", "geometric", "geometric-Tfree"):
